@@ -6,6 +6,7 @@ import (
 	"go/constant"
 	"go/token"
 	"go/types"
+	"os"
 	"sort"
 	"strings"
 
@@ -1799,12 +1800,13 @@ func checkUnsignedSubtractionsAreGuarded(c *Ctx, rule string) {
 	c.Floor(rule, "unsigned subtractions in the recovery state", n, 1)
 }
 
-// checkBirthdaySearchGivesUpOnlyAtABound: the birthday block search accepts the midpoint block in two ways: its
-// timestamp lies within the margin of the birthday, or the search has nowhere left to go. The second, unconditional
-// acceptance (the one not preceded by any timestamp comparison) is entered only over edges that say "the midpoint IS one
-// of the bounds" — equalities of the accepted height with something. Entered on a mere "the range is small" test, a block
-// that was never compared with the birthday (and may lie after the first payment) becomes the birthday block. (The
-// search as a whole — that it finds a block within the margin — is numeric and not decided.)
+// checkBirthdaySearchGivesUpOnlyAtABound: the birthday block search accepts the block it just fetched in two ways: its
+// timestamp lies within the margin of the birthday, or the search has nowhere left to go. Every path from the fetch of a
+// candidate block to a success return that fetches no further candidate and compares no timestamp passes an edge that
+// says "the candidate IS one of the bounds": an equality of two heights, or the same fact spelled as a width
+// ("a - b < 2": the range holds at most two heights, so its midpoint is its lower bound). Accepted on a mere "the range
+// is small" test, a block that was never compared with the birthday (and may lie after the first payment) becomes the
+// birthday block. (The search as a whole — that it finds a block within the margin — is numeric and not decided.)
 func checkBirthdaySearchGivesUpOnlyAtABound(c *Ctx, rule string) {
 	p := c.P
 	fn := p.Func("wallet", "", "locateBirthdayBlock")
@@ -1812,53 +1814,120 @@ func checkBirthdaySearchGivesUpOnlyAtABound(c *Ctx, rule string) {
 		c.Unresolved(rule, "wallet.locateBirthdayBlock")
 		return
 	}
+	// the candidate fetch: GetBlockHeader, in the function or in a private part it calls
+	var fetchesHeader func(g *ssa.Function, depth int) bool
+	fetchesHeader = func(g *ssa.Function, depth int) bool {
+		if g == nil || depth > 2 {
+			return false
+		}
+		for _, ci := range callsOf(g) {
+			if calleeShort(ci.Common()) == "GetBlockHeader" {
+				return true
+			}
+			if h := ci.Common().StaticCallee(); h != nil && h.Pkg == fn.Pkg && h != g && fetchesHeader(h, depth+1) {
+				return true
+			}
+		}
+		return false
+	}
+	isFetch := func(i ssa.Instruction) bool {
+		call, ok := i.(*ssa.Call)
+		if !ok {
+			return false
+		}
+		if calleeShort(&call.Call) == "GetBlockHeader" {
+			return true
+		}
+		h := call.Call.StaticCallee()
+		return h != nil && h.Pkg == fn.Pkg && h != fn && fetchesHeader(h, 1)
+	}
+	var boundCond func(cond ssa.Value, taken bool, depth int) bool
+	boundEdge := func(from *ssa.BasicBlock, si int) bool {
+		iff, isIf := from.Instrs[len(from.Instrs)-1].(*ssa.If)
+		if !isIf {
+			return false
+		}
+		return boundCond(iff.Cond, si == 0, 0)
+	}
+	boundCond = func(cond ssa.Value, taken bool, depth int) bool {
+		// a disjunction evaluated as a value (the case expression of a tagless switch): true only over edges that
+		// each say it
+		if phi, isPhi := cond.(*ssa.Phi); isPhi && taken && depth < 4 {
+			for i, e := range phi.Edges {
+				pred := phi.Block().Preds[i]
+				if k, isConst := e.(*ssa.Const); isConst {
+					if k.Value == nil || !constant.BoolVal(k.Value) {
+						continue
+					}
+					iff, isIf := pred.Instrs[len(pred.Instrs)-1].(*ssa.If)
+					if !isIf || !boundCond(iff.Cond, pred.Succs[0] == phi.Block(), depth+1) {
+						return false
+					}
+					continue
+				}
+				if !boundCond(e, true, depth+1) {
+					return false
+				}
+			}
+			return len(phi.Edges) > 0
+		}
+		f, isCmp := p.cmpForm(cond, taken)
+		if !isCmp {
+			return false
+		}
+		inner, _ := unwrapNot(cond)
+		bo, _ := inner.(*ssa.BinOp)
+		isInt := func(v ssa.Value) bool {
+			b, ok := v.Type().Underlying().(*types.Basic)
+			return ok && b.Info()&types.IsInteger != 0
+		}
+		switch f.Rel {
+		case "==":
+			// two heights (the lower bound of the search is the constant 0)
+			return bo != nil && isInt(bo.X)
+		case "<":
+			if len(f.L.Coef) != 2 || f.L.Konst < -2 {
+				return false
+			}
+			sum := int64(0)
+			for _, k := range f.L.Coef {
+				if k != 1 && k != -1 {
+					return false
+				}
+				sum += k
+			}
+			return sum == 0
+		}
+		return false
+	}
 	n := 0
-	for _, st := range storesToFieldOwner(fn, "BlockStamp", "Height") {
-		b := st.Block()
-		// preceded by a timestamp comparison on every path? then it is the in-margin acceptance
-		q := &PathQuery{Fn: fn, Barrier: func(i ssa.Instruction) bool {
-			call, ok := i.(*ssa.Call)
-			return ok && calleeShort(&call.Call) == "Sub"
-		}}
-		tgt := st
-		q.Target = func(i ssa.Instruction, _ *ssa.BasicBlock) bool { return i == ssa.Instruction(tgt) }
-		if len(q.From(nil)) == 0 {
+	for _, ci := range callsOf(fn) {
+		fetch, ok := ci.(*ssa.Call)
+		if !ok || !isFetch(fetch) {
 			continue
 		}
 		n++
-		mid := stripConv(st.Val)
-		ok := len(b.Preds) > 0
-		for _, pr := range b.Preds {
-			iff, isIf := pr.Instrs[len(pr.Instrs)-1].(*ssa.If)
-			if !isIf {
-				ok = false
-				continue
-			}
-			taken := pr.Succs[0] == b
-			// the same fact spelled as a width: "a - b < 2" (the range holds at most two heights, so its midpoint is
-			// its lower bound); a wider width is not that fact
-			if f, isCmp := p.cmpForm(iff.Cond, taken); isCmp && f.Rel == "<" && len(f.L.Coef) == 2 && f.L.Konst >= -2 {
-				sum, unit := int64(0), true
-				for _, k := range f.L.Coef {
-					sum += k
-					unit = unit && (k == 1 || k == -1)
+		q := &PathQuery{Fn: fn,
+			Barrier: func(i ssa.Instruction) bool {
+				if isFetch(i) {
+					return true
 				}
-				if unit && sum == 0 {
-					continue
-				}
-			}
-			inner, neg := unwrapNot(iff.Cond)
-			bo, isBo := inner.(*ssa.BinOp)
-			if !isBo || !(((bo.Op == token.EQL) != neg) == taken && (bo.Op == token.EQL || bo.Op == token.NEQ)) {
-				ok = false
-				continue
-			}
-			if stripConv(bo.X) != mid && stripConv(bo.Y) != mid {
-				ok = false
+				call, ok := i.(*ssa.Call)
+				return ok && calleeShort(&call.Call) == "Sub"
+			},
+			EdgeBarrier: boundEdge,
+			Target: func(i ssa.Instruction, _ *ssa.BasicBlock) bool {
+				r, ok := i.(*ssa.Return)
+				return ok && len(r.Results) > 0 && isNilConst(effectiveResult(r, len(r.Results)-1))
+			}}
+		hits := q.From(fetch)
+		if os.Getenv("VERIF_DEBUG") != "" {
+			for _, h := range hits {
+				fmt.Fprintf(os.Stderr, "bday hit %v via %v in block %d\n", p.Pos(h.Ins.Pos()), h.Via, h.Ins.Block().Index)
 			}
 		}
-		c.Check(rule, "birthday-search-gives-up-only-at-a-bound", st.Pos(), ok,
-			"locateBirthdayBlock accepts the midpoint block without having compared its timestamp with the birthday on an edge that does not say the midpoint equals a bound of the search: a block later than the margin (possibly later than the first payment) becomes the birthday block and the blocks before it are never scanned")
+		c.Check(rule, "birthday-search-gives-up-only-at-a-bound", fetch.Pos(), len(hits) == 0,
+			"locateBirthdayBlock can return the block it just fetched without having compared its timestamp with the birthday and without having passed an edge that says the candidate height equals a bound of the search: a block later than the margin (possibly later than the first payment) becomes the birthday block and the blocks before it are never scanned")
 	}
-	c.Floor(rule, "unconditional acceptances in the birthday block search", n, 1)
+	c.Floor(rule, "candidate fetches in the birthday block search", n, 1)
 }
